@@ -211,15 +211,63 @@ func (e *Engine) specError(fr *Frame, format string, a ...interface{}) {
 }
 
 func (e *Engine) siteStore(st *State, fr *Frame, loc *Loc, val Val, pos token.Pos) {
-	if loc.Kind != LHeap {
+	if loc.Kind != LHeap && loc.Kind != LCell {
+		return
+	}
+	if !e.hasStoreRules(fr) {
+		return
+	}
+	// a whole struct value assigned at once stores every field
+	if stt, ok := loc.T.Underlying().(*types.Struct); ok && inRepo(loc.T) && len(val.L) == len(e.flatten(loc.T)) && types.Identical(loc.T, loc.Root) && loc.Off == 0 {
+		off := 0
+		for i := 0; i < stt.NumFields(); i++ {
+			n := len(e.flatten(stt.Field(i).Type()))
+			if n > 0 {
+				fl := *loc
+				fl.Off = loc.Off + off
+				fl.T = stt.Field(i).Type()
+				fv := val.sub(stt.Field(i).Type(), off, n)
+				// a field that the copy leaves at its zero value is initialisation, not a store event
+				if z := e.zeroVal(stt.Field(i).Type()); len(z.L) == len(fv.L) {
+					same := true
+					for j := range z.L {
+						if z.L[j] != fv.L[j] {
+							same = false
+						}
+					}
+					if same {
+						off += n
+						continue
+					}
+				}
+				e.siteStoreField(st, fr, &fl, typeKey(loc.T)+"."+stt.Field(i).Name(), fv, pos)
+			}
+			off += n
+		}
 		return
 	}
 	cls := e.fieldClass(loc)
 	if cls == "" {
 		return
 	}
-	owner := Val{T: types.NewPointer(loc.Root), L: []string{loc.Obj}}
+	e.siteStoreField(st, fr, loc, cls, val, pos)
+}
+
+func (e *Engine) siteStoreField(st *State, fr *Frame, loc *Loc, cls string, val Val, pos token.Pos) {
+	owner := Val{T: types.NewPointer(loc.Root), L: []string{"nil"}}
+	if loc.Kind == LHeap {
+		owner.L = []string{loc.Obj}
+	}
 	e.siteEvent(st, fr, "store", cls, map[string]Val{"$val": val, "$obj": owner, "$chanclass": Val{T: types.Typ[types.String], L: []string{e.strConst(cls)}}}, pos)
+}
+
+func (e *Engine) hasStoreRules(fr *Frame) bool {
+	for _, r := range e.siteRules(fr) {
+		if r.Sel == "store" {
+			return true
+		}
+	}
+	return false
 }
 
 // ---------- guards ----------
@@ -346,10 +394,10 @@ func (e *Engine) mapFieldClass(v ssa.Value) string {
 			return typeKey(st) + "." + st.Underlying().(*types.Struct).Field(fa.Field).Name()
 		}
 		if a, ok := u.X.(*ssa.Alloc); ok {
-			return "var:" + a.Comment
+			return "var:" + e.allocName(a)
 		}
 		if fv, ok := u.X.(*ssa.FreeVar); ok {
-			return "var:" + fv.Name()
+			return "var:" + e.vname(fv.Parent(), fv.Name())
 		}
 	}
 	return ""
@@ -586,7 +634,7 @@ func (e *Engine) canInline(fr *Frame, fn *ssa.Function) bool {
 	for _, b := range fn.Blocks {
 		n += len(b.Instrs)
 	}
-	return n <= 60
+	return n <= 400
 }
 
 // havocPointee: a pointer to a local cell handed to unknown code may be written through.
@@ -684,6 +732,7 @@ func (e *Engine) bindParams(fn *ssa.Function, sig *types.Signature, args []Val) 
 	if fn != nil && len(fn.Params) == len(args) {
 		for i, p := range fn.Params {
 			names[p.Name()] = args[i]
+			names[e.vname(fn, p.Name())] = args[i]
 		}
 	} else if sig != nil {
 		off := len(args) - sig.Params().Len()
@@ -718,6 +767,7 @@ func (e *Engine) checkRequiresB(st *State, fr *Frame, ct *Contract, fn *ssa.Func
 			if i < len(bind) {
 				if r := bind[i].ref(0); r != nil && r.Loc != nil {
 					names[fv.Name()] = e.load(st, r.Loc)
+					names[e.vname(fn, fv.Name())] = names[fv.Name()]
 				}
 			}
 		}
